@@ -688,9 +688,29 @@ func c09StoreLoop(c *Ctx, TS *ssa.Function, p string, loop *loopRef) {
 		return b, n
 	}
 	is := func(l string) func(string) bool { return func(x string) bool { return x == l } }
+	// separator present: the `found` answer of the cut — or a fact that entails it. By the contract of strings.Cut an entry
+	// without separator is cut into (entry, ""), so a name half that is known not to be empty (compared with "", or
+	// accepted by the file-name validator, which is certified — file-name/certified, re-decided here — to reject the
+	// empty string) was cut off behind a separator: the guard `if !found` is subsumed by the guard on the name and need
+	// not be spelled out.
 	a, z := part(2)
-	b, n := iterBlockedDeep(w, TS, loop, m, matchOf(pre("T("+a, z+")")))
-	b, n = forAll(b, n, func(half func(int) string) []func(string) bool { return []func(string) bool{is("T(" + half(2) + ")")} })
+	a1, z1 := part(1)
+	sepFacts := []func(string) bool{pre("T("+a, z+")"), pre("NE("+a1, z1+`,const:"")`), pre("NE(len("+a1, z1+"),const:0)")}
+	nameCertified := false
+	if vf := w.Func("internal/file", "IsValidFileName"); vf != nil {
+		nameCertified, _ = certifyFileNameValidator(w, vf)
+	}
+	if nameCertified {
+		sepFacts = append(sepFacts, pre("T(call:ngo/internal/file.IsValidFileName("+a1, z1+"))"))
+	}
+	b, n := iterBlockedDeep(w, TS, loop, m, matchOf(sepFacts...))
+	b, n = forAll(b, n, func(half func(int) string) []func(string) bool {
+		out := []func(string) bool{is("T(" + half(2) + ")"), is("NE(" + half(1) + `,const:"")`), is("NE(len(" + half(1) + "),const:0)")}
+		if nameCertified {
+			out = append(out, is("T(call:ngo/internal/file.IsValidFileName("+half(1)+"))"))
+		}
+		return out
+	})
 	c.slot(b, n, "store/separator", "trust store entry: type:name separator present", site, "an entry without separator is accepted")
 	// known type: the type prefix equals an element of truststore.Types (slices.Contains over that list, or an equality
 	// with one of its elements), or one of the constants the list is initialised with
@@ -770,7 +790,9 @@ func c09IdentityLoop(c *Ctx, TI *ssa.Function, p string, loop *loopRef) {
 	labels, _ := fi.mustPassBetween([]int{loop.Body.Index}, map[int]bool{loop.Header.Index: true})
 	_, h := hasLabel(labels, "NE("+id, `],const:"")`)
 	c.slot(h, 1, "identity/empty", "identities: no empty identity", lsite, "")
-	b, n := iterBlockedDeep(w, TI, loop, m, matchOf(isWild, pre("T(call:strings.Cut("+id, `,const:":")#2)`)))
+	// (a value half that is not empty was cut off behind a separator — contract of strings.Cut: without separator the
+	// second half is "" — so that fact entails the separator, see c09NewCutFacts)
+	b, n := iterBlockedDeep(w, TI, loop, m, matchOf(isWild, pre("T(call:strings.Cut("+id, `,const:":")#2)`), pre("NE(call:strings.Cut("+id, `,const:":")#1,const:"")`)))
 	c.slot(b, n, "identity/separator", "identities: a non-wildcard identity has a prefix:value separator", lsite, "an identity without separator is accepted")
 	b, n = iterBlockedDeep(w, TI, loop, m, matchOf(isWild, notX509, pre("NE(call:strings.Cut("+id, `,const:":")#1,const:"")`)))
 	c.slot(b, n, "identity/empty-value", "identities: an x509.subject identity has a non-empty value", lsite, "an x509.subject identity with empty value is accepted")
@@ -1238,9 +1260,14 @@ func c09ScopeFormat(c *Ctx, FM *ssa.Function, fmArg int) {
 		return true
 	}
 	cutD := "call:strings.Cut(" + p + `,const:"/")`
-	c.slot(hasAll("T("+cutD+"#2)"), 1, "scope-format/has-slash", "scope format: domain/repository separator present", fsite, "")
-	c.slot(hasAll("NE("+cutD+`#0,const:"")`), 1, "scope-format/domain-non-empty", "scope format: non-empty domain", fsite, "")
-	c.slot(hasAll("NE("+cutD+`#1,const:"")`), 1, "scope-format/repository-non-empty", "scope format: non-empty repository", fsite, "")
+	// The three facts about the two halves of the scope are decided on the must-pass facts of every success exit, closed
+	// under what the contract of strings.Cut and the constant patterns entail (c09CutFacts): a guard that another guard
+	// of the same exit subsumes need not be spelled out (`domain, repository, _ := strings.Cut(scope, "/")` followed by
+	// `repository == ""` rejects the scope without separator as well).
+	cf := c09NewCutFacts(w, FM, p, `const:"/"`)
+	c.slot(hasAll("T("+cutD+"#2)") || cf.onAll(fs, cfFound), 1, "scope-format/has-slash", "scope format: domain/repository separator present", fsite, "")
+	c.slot(hasAll("NE("+cutD+`#0,const:"")`) || cf.onAll(fs, cfBefore), 1, "scope-format/domain-non-empty", "scope format: non-empty domain", fsite, "")
+	c.slot(hasAll("NE("+cutD+`#1,const:"")`) || cf.onAll(fs, cfAfter), 1, "scope-format/repository-non-empty", "scope format: non-empty repository", fsite, "")
 	for i, part := range []string{"domain", "repository"} {
 		// every success exit lies behind the true edge of a MatchString call on this part whose receiver is a
 		// compiled constant pattern (compiled in place, or kept in a field / package variable that only ever holds
